@@ -30,7 +30,7 @@ CLAIMED = {
 }
 
 CLAIMED.update({
-    "C02": ("3.C02", "MC_Bdd: |AllWF(NV)| = 2^2^NV, Sat is injective on AllWF and Canon(Sat(a)) = a (NV=3, thorough NV=4); MC_Env: I_WF and I_Canon "
+    "C02": ("3.C02", "MC_Bdd: |AllWF(NV)| = 2^2^NV, Canon(Sat(a)) = a on AllWF and Sat(Canon(S)) = S with Canon(S) in AllWF for every set S of assignments, i.e. Sat is a bijection (NV=3, thorough NV=4); MC_Env: I_WF and I_Canon "
             "hold in every reachable state of the environment machine (every construction route, NV=2); TLC-simulated behaviours of Env.tla "
             "(NV=3) are replayed in fresh and long-lived real environments with one variable order and results must be ==/hash-equal iff the "
             "specification's structures are equal; random 300-operation histories are validated by Trace_Env (WF of every node, equal "
